@@ -6,4 +6,4 @@ Extraction "C05_model.ml"
   N.add N.mul N.div_eucl
   gen_cfg run_case spec_case spec_report spec_close_code
   H3_FRAME_UNEXPECTED H3_FRAME_ERROR H3_SETTINGS_ERROR H3_CLOSED_CRITICAL_STREAM H3_INTERNAL_ERROR
-  H3_ID_ERROR H3_MISSING_SETTINGS H3_NO_ERROR QPACK_DECOMPRESSION_FAILED.
+  H3_ID_ERROR H3_STREAM_CREATION_ERROR H3_MISSING_SETTINGS H3_NO_ERROR QPACK_DECOMPRESSION_FAILED.
